@@ -466,3 +466,11 @@ Theorem diff_records_of_archive fsub i sp dp rs rd :
 Proof. reflexivity. Qed.
 Lemma vdiff_nan fsub v u : is_nan v = true \/ is_nan u = true -> vdiff fsub v u = NaN.
 Proof. intros [H|H]; unfold vdiff; rewrite H; [reflexivity|rewrite orb_true_r; reflexivity]. Qed.
+
+(** * C16: a report that cannot be written is never a success *)
+Theorem textout_never_silent to st : to = ToBad \/ to = ToFull -> textout_status to st <> StOk.
+Proof. intros [-> | ->]; destruct st; discriminate. Qed.
+Theorem textout_keeps_failures to st : st <> StOk -> to <> ToBad -> textout_status to st = st.
+Proof. intros Hs Hb. destruct to; try reflexivity; [contradiction|]. destruct st; try reflexivity. contradiction. Qed.
+Theorem textout_transparent st : textout_status ToFile st = st /\ textout_status ToDiscard st = st.
+Proof. split; reflexivity. Qed.
